@@ -100,11 +100,20 @@ class GwyWorld:
         self.on_write: Callable[[Any, str], None] | None = None
         self._next_gid: list[str | None] = []
 
+        self.connect_delay = 0.0  # virtual seconds the dongle handshake takes (a real port polls its signature for up to 2 s)
+        self.early_frames: list[str] = []  # frames heard half-way through that handshake (the port is already being read)
+
         async def factory(protocol, **kw):
             gid = self._next_gid.pop(0) if self._next_gid else GWY_ID
             tx = L["HarnessTransport"](protocol, self, gid)
             self.txs.append(tx)
-            self.loop.call_soon(lambda: protocol.connection_made(tx, ramses=True))
+            if self.connect_delay:
+                self.loop.call_later(self.connect_delay, lambda: protocol.connection_made(tx, ramses=True))
+                for fr in self.early_frames:
+                    self.loop.call_later(self.connect_delay / 2, lambda fr=fr: tx._frame_read(self.now().isoformat(timespec="microseconds"), f"045 {fr}"))
+                self.early_frames = []
+            else:
+                self.loop.call_soon(lambda: protocol.connection_made(tx, ramses=True))
             return tx
 
         self._factory = factory
